@@ -87,8 +87,21 @@ pub fn discriminants(spec: &EnumSpec) -> Option<Vec<i128>> {
     Some(out)
 }
 
+/// the integer type named by the enum's #[repr] hints (`C, u8` / `align(4), u8` / `u8;align(4)`), usize if none
 pub fn repr_of(spec: &EnumSpec) -> String {
-    spec.repr.clone().unwrap_or_else(|| "usize".into())
+    if let Some(r) = &spec.repr {
+        for tok in r.split(|c: char| !(c.is_alphanumeric() || c == '_')) {
+            if REPRS.contains(&tok) {
+                return tok.to_string();
+            }
+        }
+    }
+    "usize".into()
+}
+
+/// does the enum name an integer type in its repr hints?
+pub fn has_int_repr(spec: &EnumSpec) -> bool {
+    spec.repr.as_ref().map(|r| r.split(|c: char| !(c.is_alphanumeric() || c == '_')).any(|t| REPRS.contains(&t))).unwrap_or(false)
 }
 
 fn in_domain(spec: &EnumSpec) -> bool {
@@ -97,7 +110,7 @@ fn in_domain(spec: &EnumSpec) -> bool {
         None => return false,
     };
     let r = repr_of(spec);
-    let (lo, hi) = if spec.repr.is_none() { (0, isize::MAX as i128) } else { repr_range(&r) };
+    let (lo, hi) = if !has_int_repr(spec) { (0, isize::MAX as i128) } else { repr_range(&r) };
     if ds.iter().any(|d| *d < lo || *d > hi) {
         return false;
     }
@@ -110,11 +123,15 @@ fn in_domain(spec: &EnumSpec) -> bool {
     // rustc: explicit discriminants on an enum with data need a primitive repr
     let has_data = spec.variants.iter().any(|v| !v.kind.is_unit());
     let has_explicit = spec.variants.iter().any(|v| v.disc.is_some());
-    if has_data && has_explicit && spec.repr.is_none() {
+    if has_data && has_explicit && !has_int_repr(spec) {
+        return false;
+    }
+    // rustc: `repr(C, int)` is only meaningful (and only accepted without a conflict) on enums with fields
+    if spec.repr.as_deref().map(|r| r.starts_with("C,")).unwrap_or(false) && !has_data {
         return false;
     }
     // a typed const can only be used when the discriminant type is named by #[repr]
-    if spec.repr.is_none() && !consts_used(spec).is_empty() {
+    if !has_int_repr(spec) && !consts_used(spec).is_empty() {
         return false;
     }
     true
@@ -154,6 +171,14 @@ pub fn programs(tier: Tier) -> ProgramSet {
             for r in &reprs {
                 let r2 = r.to_string();
                 devs.push(dev(format!("repr({})", r), &["repr"], move |s| {
+                    s.repr = Some(r2.clone());
+                    true
+                }));
+            }
+            // several repr hints in one attribute / in two attributes: the integer type must still be found
+            for r in ["C, u8", "align(4), u8", "i16, align(8)", "u8;align(2)", "align(2);i8"] {
+                let r2 = r.to_string();
+                devs.push(dev(format!("repr({})", r.replace(';', ")] #[repr(")), &["repr"], move |s| {
                     s.repr = Some(r2.clone());
                     true
                 }));
@@ -213,7 +238,7 @@ pub fn render(spec: &EnumSpec) -> String {
     let r = repr_of(spec);
     let mut o = String::new();
     for c in consts_used(spec) {
-        o.push_str(&format!("const {}: {} = {};\n", c, if spec.repr.is_none() { "isize".to_string() } else { r.clone() }, disc_value(&c).unwrap()));
+        o.push_str(&format!("const {}: {} = {};\n", c, if !has_int_repr(spec) { "isize".to_string() } else { r.clone() }, disc_value(&c).unwrap()));
     }
     o.push_str(&render_enum(spec, &["Debug", "strum::FromRepr"]));
     o.push_str(&format!("type EC = {};\n", spec.name));
@@ -224,7 +249,7 @@ pub fn render(spec: &EnumSpec) -> String {
     for (i, v) in spec.variants.iter().enumerate() {
         if fieldless {
             o.push_str(&format!("        Some((EC::{} as {}) as i128),\n", v.ident, r));
-        } else if spec.repr.is_some() {
+        } else if has_int_repr(spec) {
             let fields: Vec<String> = (0..v.kind.nfields()).map(|_| "Default::default()".to_string()).collect();
             o.push_str(&format!(
                 "        {{ let v: EC = {}; Some(unsafe {{ *(&v as *const EC as *const {}) }} as i128) }},\n",
@@ -236,8 +261,8 @@ pub fn render(spec: &EnumSpec) -> String {
         }
     }
     o.push_str("    ]\n}\n");
-    // callable in const context when no variant that from_repr can produce carries data
-    if spec.variants.iter().all(|v| v.disabled || v.kind.is_unit()) {
+    // the docs: `const` "when there is no additional data on any of the variants" (disabled ones included)
+    if fieldless {
         o.push_str("const _CONST_CALLABLE: Option<EC> = EC::from_repr(0);\n");
     }
     o.push_str(&format!(
